@@ -19,7 +19,7 @@ import (
 // types (Node: template type declarations cannot refer to themselves) and types
 // containing time.Time (no way to write a time value without native packages).
 var declOrder = []string{"MyInt", "MyInt8", "MyUint16", "MyFloat", "MyFloat32", "MyString", "MyBool", "MyU8", "MyBytes", "MyInts", "MyStrMap", "MyArr",
-	"Inner", "inner2", "Unexp", "FirstOmit", "Emb", "EmbPtr", "EmbTagged", "EmbNonStruct", "EmbUnexp", "Anys", "Mixed"}
+	"Inner", "inner2", "Unexp", "FirstOmit", "Emb", "EmbPtr", "EmbTagged", "EmbNonStruct", "EmbUnexp", "Anys", "Mixed", "LeadOmit"}
 
 var declTypes = func() map[reflect.Type]string {
 	m := map[reflect.Type]string{reflect.TypeFor[inner2](): "inner2"}
